@@ -252,6 +252,11 @@ class C05(DecProp):
                 s = f"P {t[1]} a:{hx[:2 * k]};n;a:{hx[2 * k:]};n"
                 self._splits[s] = l
                 out.append(s)
+        # the same deliveries through a source that hands out at most 1 / 2 / 3 bytes per read call (option number / 4)
+        sp = [l for l in out if ";n;a:" in l]
+        for k, l in enumerate(sp[:: max(1, len(sp) // core.q(tier, 40, 400))]):
+            t = l.split(" ", 2)
+            out.append(f"P {int(t[1]) + 4 * (1 + k % 3)} {t[2]}")
         # two pictures in one source (junction byte aligned or not), delivered in two pieces cut around the junction
         out += core.gen_lines("junction", seed + 6, core.q(tier, 16, 160))
         # options announced by a rejected picture, then a picture that inherits its options
